@@ -882,3 +882,238 @@ func ruleWalkKeepsEveryModelFile(c *core.Ctx) {
 		c.Undecided(rule, "anchor/directory walk in ParseYamlInDir", d.Pos(), "no walk or listing found")
 	}
 }
+
+// ---------------------------------------------------------------------------------------------------------------
+// V7b: a collector of definitions takes them from every namespace of the environment (imports included).
+// ---------------------------------------------------------------------------------------------------------------
+func ruleDefinitionCollectorsWalkAllNamespaces(c *core.Ctx) {
+	const rule = "V7b"
+	c.Rule(rule, "pkg/dsl: a function that takes an *Environment and returns a collection of type definitions ranges over env.Namespaces and does not single out the top-level namespace (definitions of imported packages take part in the comparison of versions)", 1)
+	p := c.Pkg("pkg/dsl")
+	if p == nil {
+		c.Undecided(rule, "anchor/pkg/dsl", 0, "package not found")
+		return
+	}
+	info := p.TypesInfo
+	isDefColl := func(t types.Type) bool {
+		var el types.Type
+		switch u := t.Underlying().(type) {
+		case *types.Slice:
+			el = u.Elem()
+		case *types.Map:
+			el = u.Elem()
+		default:
+			return false
+		}
+		nt := core.NamedOf(el)
+		return nt != nil && nt.Obj().Pkg() == p.Types && nt.Obj().Name() == "TypeDefinition"
+	}
+	n := 0
+	for _, d := range c.AllDecls() {
+		if c.DeclPkg(d) != p || d.Body == nil || d.Recv != nil || d.Type.Results == nil || c.IsTestFile(d.Pos()) {
+			continue
+		}
+		returnsColl := false
+		for _, r := range d.Type.Results.List {
+			if t := info.TypeOf(r.Type); t != nil && isDefColl(t) {
+				returnsColl = true
+			}
+		}
+		if !returnsColl {
+			continue
+		}
+		var env types.Object
+		for _, po := range paramObjs(info, d) {
+			if po == nil {
+				continue
+			}
+			if pt, ok := po.Type().(*types.Pointer); ok {
+				if nt := core.NamedOf(pt.Elem()); nt != nil && nt.Obj().Name() == "Environment" && nt.Obj().Pkg() == p.Types {
+					env = po
+				}
+			}
+		}
+		if env == nil {
+			continue
+		}
+		top, ranges := token.NoPos, false
+		ast.Inspect(d.Body, func(m ast.Node) bool {
+			switch x := m.(type) {
+			case *ast.CallExpr:
+				if se, ok := ast.Unparen(x.Fun).(*ast.SelectorExpr); ok && se.Sel.Name == "GetTopLevelNamespace" && identObj(info, se.X) == env {
+					top = x.Pos()
+				}
+			case *ast.RangeStmt:
+				if se, ok := ast.Unparen(x.X).(*ast.SelectorExpr); ok && se.Sel.Name == "Namespaces" && identObj(info, se.X) == env {
+					ranges = true
+				}
+			case *ast.IndexExpr:
+				if se, ok := ast.Unparen(x.X).(*ast.SelectorExpr); ok && se.Sel.Name == "Namespaces" && identObj(info, se.X) == env {
+					if tv, ok := info.Types[x.Index]; ok && tv.Value != nil {
+						top = x.Pos()
+					}
+				}
+			}
+			return true
+		})
+		n++
+		at := d.Pos()
+		if top != token.NoPos {
+			at = top
+		}
+		c.Check(top == token.NoPos && ranges, rule, d.Name.Name, at, "collects from every namespace of the environment",
+			"the collector takes the definitions of one namespace only: types of imported packages are never paired across versions, so a package that imports another one is reported as incompatible with its own previous version (or changes in an imported type go unnoticed)")
+	}
+	if n == 0 {
+		c.Undecided(rule, "anchor/definition collectors", 0, "none found")
+	}
+}
+
+func init() {
+	reg("C06", ruleDefinitionCollectorsWalkAllNamespaces)
+	reg("C05", ruleDefinitionCollectorsWalkAllNamespaces)
+	reg("C08", ruleRawJSONProvenance)
+}
+
+// ---------------------------------------------------------------------------------------------------------------
+// AF1: a verdict that a loop accumulates ("some element has the property") is set, or or-ed, never overwritten by the
+// answer for the current element: otherwise the last element decides alone.
+// ---------------------------------------------------------------------------------------------------------------
+func ruleLoopVerdictsAccumulate(c *core.Ctx) {
+	const rule = "AF1"
+	c.Rule(rule, "pkg/dsl: a boolean declared in front of a loop, assigned inside it and read behind it is assigned a constant, or-ed/and-ed with itself, or the assignment is followed by leaving the loop — never overwritten by the answer for the current element (the last element would decide alone)", 5)
+	p := c.Pkg("pkg/dsl")
+	if p == nil {
+		c.Undecided(rule, "anchor/pkg/dsl", 0, "package not found")
+		return
+	}
+	info := p.TypesInfo
+	n := 0
+	for _, d := range c.AllDecls() {
+		if c.DeclPkg(d) != p || d.Body == nil || c.IsTestFile(d.Pos()) {
+			continue
+		}
+		var loops []ast.Stmt
+		ast.Inspect(d.Body, func(m ast.Node) bool {
+			switch m.(type) {
+			case *ast.ForStmt, *ast.RangeStmt:
+				loops = append(loops, m.(ast.Stmt))
+			}
+			return true
+		})
+		for _, l := range loops {
+			var body *ast.BlockStmt
+			switch x := l.(type) {
+			case *ast.ForStmt:
+				body = x.Body
+			case *ast.RangeStmt:
+				body = x.Body
+			}
+			// assignments in the body, not in nested function literals or nested loops (those are judged on their own)
+			var visit func(list []ast.Stmt)
+			visit = func(list []ast.Stmt) {
+				for i, s := range list {
+					switch x := s.(type) {
+					case *ast.AssignStmt:
+						if x.Tok != token.ASSIGN {
+							continue
+						}
+						for k, lh := range x.Lhs {
+							id, ok := ast.Unparen(lh).(*ast.Ident)
+							if !ok || id.Name == "_" {
+								continue
+							}
+							v, ok := info.ObjectOf(id).(*types.Var)
+							if !ok || v.Pos() >= l.Pos() || v.Pos() < d.Pos() {
+								continue // declared inside the loop (or not a local)
+							}
+							if b, ok := v.Type().Underlying().(*types.Basic); !ok || b.Kind() != types.Bool {
+								continue
+							}
+							// read behind the loop?
+							readAfter := false
+							ast.Inspect(d.Body, func(q ast.Node) bool {
+								if i2, ok := q.(*ast.Ident); ok && i2.Pos() > l.End() && info.Uses[i2] == v {
+									readAfter = true
+								}
+								return true
+							})
+							if !readAfter {
+								continue
+							}
+							n++
+							okForm := ""
+							var rhs ast.Expr
+							if len(x.Rhs) == len(x.Lhs) {
+								rhs = ast.Unparen(x.Rhs[k])
+							}
+							if rhs != nil {
+								if tv, ok := info.Types[rhs]; ok && tv.Value != nil {
+									okForm = "assigned a constant"
+								}
+								if be, ok := rhs.(*ast.BinaryExpr); ok && (be.Op == token.LOR || be.Op == token.LAND) {
+									for _, side := range []ast.Expr{be.X, be.Y} {
+										if i2, ok := ast.Unparen(side).(*ast.Ident); ok && info.ObjectOf(i2) == v {
+											okForm = "combined with its previous value"
+										}
+									}
+								}
+							}
+							if okForm == "" {
+								// followed, in the same statement list, by leaving the loop (directly or under `if v`)
+								for _, nx := range list[i+1:] {
+									switch y := nx.(type) {
+									case *ast.BranchStmt:
+										if y.Tok == token.BREAK {
+											okForm = "followed by break"
+										}
+									case *ast.ReturnStmt:
+										okForm = "followed by return"
+									case *ast.IfStmt:
+										// `if v { break }`: the loop ends as soon as the verdict is reached (a test of anything else,
+										// `!v` included, lets a later element overwrite it)
+										if ci, isId := ast.Unparen(y.Cond).(*ast.Ident); isId && bodyLeaves(y.Body) && info.ObjectOf(ci) == v {
+											okForm = "followed by a conditional exit on the verdict"
+										}
+									}
+									if okForm != "" {
+										break
+									}
+								}
+							}
+							c.Check(okForm != "", rule, fmt.Sprintf("%s/%s in loop", c.FuncName(d), id.Name), x.Pos(), okForm,
+								"`"+id.Name+"` is declared in front of the loop, read behind it and overwritten in every iteration with the answer for the current element: only the LAST element counts (for `Pair<Rec, int>` with a changed `Rec` the later, unchanged argument resets the verdict and the change is lost)")
+						}
+					case *ast.IfStmt:
+						visit(x.Body.List)
+						if eb, ok := x.Else.(*ast.BlockStmt); ok {
+							visit(eb.List)
+						} else if ei, ok := x.Else.(*ast.IfStmt); ok {
+							visit([]ast.Stmt{ei})
+						}
+					case *ast.BlockStmt:
+						visit(x.List)
+					case *ast.SwitchStmt:
+						for _, cc := range x.Body.List {
+							visit(cc.(*ast.CaseClause).Body)
+						}
+					case *ast.TypeSwitchStmt:
+						for _, cc := range x.Body.List {
+							visit(cc.(*ast.CaseClause).Body)
+						}
+					}
+				}
+			}
+			visit(body.List)
+		}
+	}
+	if n == 0 {
+		c.Undecided(rule, "anchor/loop verdicts", 0, "none found")
+	}
+}
+
+func init() {
+	reg("C05", ruleLoopVerdictsAccumulate)
+	reg("C06", ruleLoopVerdictsAccumulate)
+	reg("C09", ruleLoopVerdictsAccumulate)
+}
